@@ -1213,6 +1213,30 @@ def oracle_html_call(call, viol):
             sig = classify(f"{site} | raises", True) if name == "ExpatError" else f"{site} | raises {name}"
             viol.append({"signature": sig, "msg": f"{name}: {e} op={op!r} template={call['template']!r}"})
         return
+    # a value in an attribute position (fg= / bg= / color=) may select ONE style word, as the template
+    # asks, or be rejected (ValueError); it can never add style words of its own.  Independent of any
+    # reference parse of the value: the style words of the result must be the style words the template
+    # shows with a neutral sentinel in each hole, with the whole value in place of the sentinel.
+    if pf is not None and not wp:
+        whole = [XML_ILLEGAL.sub("?", py_format_value(used[i], holes[i][2], percent)) for i in range(len(holes))]
+
+        def subst(word):
+            for i, sc in enumerate(sent):
+                word = word.replace(sc, whole[i])
+            return word
+
+        # (an empty value is not a word: `if fg:` then shows what the template has underneath)
+        try:
+            neutral = html_cells(HTML(fill(lambda n, it: sent[n] if whole[n] else "")))
+        except Exception:
+            neutral = None
+        allowed = {subst(w) for st, _ in (neutral or []) for w in st.split(" ")}
+        foreign = sorted({w for st, _ in got for w in st.split(" ") if w and w not in allowed})
+        if neutral is not None and foreign and any(sc in st for st, _ in neutral for sc in sent):
+            viol.append({"signature": f"{site} | interpolated value adds style words",
+                         "msg": f"style words {foreign!r} come from the interpolated value, not from the template: "
+                                f"op={op!r} template={call['template']!r} got={got!r}"})
+            return
     if ideal_exc is not None:
         dflt = f"{site} | value not inert"
         if any("'" in v for v in used):
@@ -1702,6 +1726,9 @@ HTML_FMT_POOL = [
     [["lit", '<style fg="ansired">'], ["hole", None, ">3"], ["lit", "</style><u>"], ["hole", None, None], ["lit", "</u>"]],
     [["lit", "<style fg='"], ["hole", None, None], ["lit", "'>x</style>"]],          # single-quoted attribute
     [["lit", '<style bg="'], ["hole", None, None], ["lit", '">x</style>']],          # double-quoted attribute
+    [["lit", '<style color="'], ["hole", None, None], ["lit", '">t</style>u']],       # the alias of fg=
+    [["lit", "<b color='c' fg='"], ["hole", None, None], ["lit", "'>t</b>"]],
+    [["lit", "<b fg='f' color='"], ["hole", None, None], ["lit", "'>t</b>"]],
     [["lit", "<i>a]"], ["hole", None, None], ["lit", "&gt;</i>"]],
     [["lit", "<"], ["hole", None, None], ["lit", ">x</b>"]],                          # hole as tag name
     [["lit", "a"], ["hole", None, None], ["lit", ">b"]],                              # value ]] + literal >
@@ -1712,10 +1739,20 @@ HTML_MOD_POOL = [
     [["lit", "<b>x"], ["hole", None, None], ["lit", "y</b>z"]],
     [["lit", "<style color='"], ["hole", None, None], ["lit", "'>x</style>"], ["hole", None, "-3"]],
     [["lit", "<i>100%"], ["hole", None, ".2"], ["lit", "</i>"]],
+    [["lit", '<style fg="'], ["hole", None, None], ["lit", '" bg=\''], ["hole", None, None], ["lit", "'>t</style>"]],
+    [["lit", '<style color="'], ["hole", None, None], ["lit", '">t</style>']],
 ]
+# values made of style words, for the attribute holes of the pools
+STYLE_WORD_VALUES = ["ansired", "ansired bold", "ansired bold underline", " bold", "bold ", "a  b", "#ff0000 reverse",
+                     "x\tbold", "x\nbold", "bg:ansiblue", "x bg:ansiblue", "class:q", "x class:q"]
 
 STYLES = ["", "b", "[ZeroWidthEscape]", "class:x [ZeroWidthEscape]"]
-FRAG_TEXT_ALPHA = ["a", "\n", "世"]
+FRAG_TEXT_ALPHA = ["a", "\n", "世", "\r"]
+# multi-character patterns around the line feed and the other characters str.splitlines() breaks at:
+# inside ONE fragment only "\n" may split, and nothing may be dropped
+FRAG_LINE_TEXTS = ["\r\n", "\n\r", "\r\r\n", "\n\n", "\r", "\u2028", "\u2029", "\x0b", "\x0c", "\x1c", "\x85",
+                   "a\r\nb", "dos\r\nline", "a\r\n", "\r\nb", "a\rb", "a\n\rb", "a\r\n\r\nb", "a\x0bb\x0cc",
+                   "a\x85b\u2028c", "x\r\ny\nz\r"]
 
 
 def frag_lists(max_frags, max_len):
@@ -1723,6 +1760,10 @@ def frag_lists(max_frags, max_len):
     for n in range(1, max_len + 1):
         texts += ["".join(t) for t in itertools.product(FRAG_TEXT_ALPHA, repeat=n)]
     single = [[st, tx, None] for st in STYLES for tx in texts]
+    for st in STYLES + ["class:a"]:
+        for tx in FRAG_LINE_TEXTS:
+            yield [[st, tx, None]]
+            yield [["b", "p\r", 1], [st, tx, None], ["", "\nq", None]]
     for k in range(0, max_frags + 1):
         if k <= 1:
             for combo in itertools.product(single, repeat=k):
@@ -1737,7 +1778,8 @@ def frag_lists(max_frags, max_len):
 def rand_frags(rng, maxn=6):
     out = []
     for _ in range(rng.randrange(0, maxn + 1)):
-        tx = "".join(rng.choice(["a", "b", "\n", "\n", "\u4e16", " ", "\u0301", "\x1b", "\t"]) for _ in range(rng.randrange(0, 6)))
+        tx = "".join(rng.choice(["a", "b", "\n", "\n", "\u4e16", " ", "\u0301", "\x1b", "\t", "\r", "\r\n", "\r\n",
+                                 "\u2028", "\x0c", "\x85"]) for _ in range(rng.randrange(0, 6)))
         st = rng.choice(STYLES + ["bold", "class:a,b fg:red", "x[ZeroWidthEscape]"])
         out.append([st, tx, rng.choice([None, None, 0, 1, 2])])
     return out
@@ -1947,6 +1989,7 @@ def gen_cases(tier, rng):
     hvalues = [""]
     for n in range(1, vmax + 1):
         hvalues += ["".join(t) for t in itertools.product(HTML_VALUE_ALPHA, repeat=n)]
+    hvalues += STYLE_WORD_VALUES
     ops = []
     for v in hvalues:
         ops.append(["hesc", v])
